@@ -84,6 +84,8 @@ Definition total : list string :=
     "validator.validate"; "validator_for_repair.validate"; "validator.routing_log.to_dict"; "repair"; "entry.to_dict";
     "extract_schema_from_document"; "compiler.compile_schema"; "_extract_contract_field_specs";
     "chain.to_string"; "chain.compile"; "get_builtin_schema"; "yaml.dump"; "re.search"; "_extract_spec_code";
+    (* str.startswith / split / join on a str argument (frontmatter replaced by blank lines before strict tokenisation: c296b0f) *)
+    "_strip_yaml_frontmatter";
     (* methods of the tool itself (their own bodies catch what they call) and path predicates *)
     "self.validate_parameters"; "self._validate_path"; "self._compute_hash"; "self._build_unified_diff";
     "self._generate_diff"; "self._apply_mutations"; "self._unwrap_markdown_code_fence";
